@@ -382,6 +382,24 @@ def _simple(prop, tier, seed, jobs, limit):
     return run_hint_family(prop, tier, seed, jobs, limit)
 
 
+def _c09(prop, tier, seed, jobs, limit):
+    from .xh import c09x
+    extra = run_engine_x(prop, c09x.specs_c09(tier, seed), jobs) if not limit else None
+    return run_hint_family(prop, tier, seed, jobs, limit, extra=extra,
+                           funcs=FUNCS_ENCODED['common'] + ['beartype._check.error._pep.pep484585.errpep484585container',
+                                                            'beartype._check.error._pep.pep484585.errpep484585mapping',
+                                                            'beartype._check.cls.logic.logcls'])
+
+
+def _c10(prop, tier, seed, jobs, limit):
+    from .xh import c09x
+    extra = run_engine_x(prop, c09x.specs_c10(tier, seed), jobs) if not limit else None
+    return run_hint_family(prop, tier, seed, jobs, limit, extra=extra,
+                           funcs=FUNCS_ENCODED['common'] + ['beartype._check.error._pep.pep484585.errpep484585container',
+                                                            'beartype._check.cls.logic.logcls',
+                                                            'beartype._data.hint.sign.datahintsignset'])
+
+
 def _c18(prop, tier, seed, jobs, limit):
     from . import c18
     return run_hint_family(prop, tier, seed, jobs, limit, run_case=c18.run_case, cases=c18.cases(tier, seed),
@@ -392,7 +410,9 @@ def _c18(prop, tier, seed, jobs, limit):
 
 def _c12(prop, tier, seed, jobs, limit):
     from . import c12
-    rc = run_hint_family(prop, tier, seed, jobs, limit, run_case=c12.run_case, cases=c12.cases(tier, seed),
+    from .xh import c12x
+    extra = run_engine_x(prop, c12x.specs(tier, seed), jobs) if not limit else None
+    rc = run_hint_family(prop, tier, seed, jobs, limit, run_case=c12.run_case, cases=c12.cases(tier, seed), extra=extra,
                          funcs=['beartype.vale._core._valecore', 'beartype.vale._core._valecorebinary',
                                 'beartype.vale._core._valecoreunary', 'beartype.vale._is._valeis',
                                 'beartype.vale._is._valeisobj', 'beartype.vale._is._valeisoper',
@@ -437,6 +457,6 @@ RUNNERS = {
     'C17': _c17,
     'C19': _c19,
     'C20': _c20,
-    'C09': _simple,
-    'C10': _simple,
+    'C09': _c09,
+    'C10': _c10,
 }
